@@ -186,7 +186,7 @@ func driveKeyedFree(plan []M, out *Out, _ []string) {
 			th.opK, th.opOp = 0, ""
 		}
 		waitRet := func(want int, d time.Duration) bool { // wait until thread want (0 = anybody) has returned
-			dl := time.After(d)
+			pt := newPatience(d)
 			for {
 				if want != 0 && !ths[want].busy.Load() && ths[want].opOp == "" {
 					return true
@@ -197,8 +197,10 @@ func driveKeyedFree(plan []M, out *Out, _ []string) {
 					if want == 0 || t == want {
 						return true
 					}
-				case <-dl:
-					return false
+				case <-pt.Tick():
+					if pt.Out() {
+						return false
+					}
 				}
 			}
 		}
